@@ -430,4 +430,5 @@ func runC11(ctx *Ctx) {
 			fmt.Fprintf(os.Stderr, "c11: %s took %v\n", fn.name, d)
 		}
 	}
+	c11D11bCorrespondence(ctx) // slice d11b: the functions proved total end to end (c11_d11b.go); last, so that the draws above are unchanged
 }
